@@ -40,6 +40,7 @@ pub fn div_nxm_normalized(numerator: &mut [u64], divisor: &[u64]) {
 
         // Overflow case
         if unlikely(n21 == d) {
+            verif_hit!(0);
             let q = u64::MAX;
             let _carry = submul_nx1(&mut numerator[j..j + n], divisor, q);
             numerator[j + n] = q;
@@ -63,6 +64,7 @@ pub fn div_nxm_normalized(numerator: &mut [u64], divisor: &[u64]) {
         // If we have a carry then the quotient was one too large.
         // We correct by decrementing the quotient and adding one divisor back.
         if unlikely(borrow) {
+            verif_hit!(1);
             q = q.wrapping_sub(1);
             let carry = adc_n(&mut numerator[j..j + n], &divisor[..n], 0);
             // Expect carry because we flip sign back to positive.
@@ -162,15 +164,19 @@ pub fn div_nxm(numerator: &mut [u64], divisor: &mut [u64]) {
                 // If we have a carry then the quotient was one too large.
                 // We correct by decrementing the quotient and adding one divisor back.
                 if unlikely(borrow) {
+                    verif_hit!(if shift == 0 { 3 } else { 4 });
                     q = q.wrapping_sub(1);
                     let carry = adc_n(&mut numerator[j..j + n], &divisor[..n], 0);
                     // Expect carry because we flip sign back to positive.
                     debug_assert_eq!(carry, 1);
                 }
+            } else {
+                verif_hit!(6);
             }
             q
         } else {
             // Overflow case
+            verif_hit!(2);
             let q = u64::MAX;
             let _carry = submul_nx1(&mut numerator[j..j + n], divisor, q);
             q
@@ -180,6 +186,9 @@ pub fn div_nxm(numerator: &mut [u64], divisor: &mut [u64]) {
         if j + n < numerator.len() {
             numerator[j + n] = q;
         } else {
+            if q != 0 {
+                verif_hit!(5);
+            }
             q_high = q;
         }
     }
